@@ -118,7 +118,7 @@ pub open spec fn next_state(s: CtorState) -> CtorState {
 
 impl Default for CtorState {
 //@ lift crates/air-lib/trace-handler/src/state_automata/fold_fsm/lore_ctor.rs :: impl Default for CtorState :: fn default
-//@ props C10 C01
+//@ props C10 C01 C08
 //@ ret r
 //@ no-canary
 //@ spec
@@ -138,7 +138,7 @@ impl Default for SubTraceLoreCtor {
 
 impl CtorState {
 //@ lift crates/air-lib/trace-handler/src/state_automata/fold_fsm/lore_ctor.rs :: impl CtorState :: fn next
-//@ props C10 C01
+//@ props C10 C01 C08
 //@ spec
         ensures *final(self) == next_state(*old(self))
 //@ end
@@ -146,7 +146,7 @@ impl CtorState {
 
 impl PositionsTracker {
 //@ lift crates/air-lib/trace-handler/src/state_automata/fold_fsm/lore_ctor.rs :: impl PositionsTracker :: fn len
-//@ props C10 C01
+//@ props C10 C01 C08
 //@ ret r
 //@ spec
         requires self.start_pos.0 <= self.end_pos.0       // else `end_pos - start_pos` panics (overflow-checks)
@@ -190,7 +190,7 @@ impl SubTraceLoreCtor {
     }
 
 //@ lift crates/air-lib/trace-handler/src/state_automata/fold_fsm/lore_ctor.rs :: impl SubTraceLoreCtor :: fn from_before_start
-//@ props C10 C01
+//@ props C10 C01 C08
 //@ ret r
 //@ spec
         requires data_keeper.rlen() <= u32::MAX
@@ -199,7 +199,7 @@ impl SubTraceLoreCtor {
 //@ end
 
 //@ lift crates/air-lib/trace-handler/src/state_automata/fold_fsm/lore_ctor.rs :: impl SubTraceLoreCtor :: fn before_end
-//@ props C10 C01
+//@ props C10 C01 C08
 //@ spec
         requires data_keeper.rlen() <= u32::MAX
         ensures final(self).st() == next_state(old(self).st()), final(self).eb() == data_keeper.rlen(),
@@ -208,7 +208,7 @@ impl SubTraceLoreCtor {
 //@ end
 
 //@ lift crates/air-lib/trace-handler/src/state_automata/fold_fsm/lore_ctor.rs :: impl SubTraceLoreCtor :: fn maybe_before_end
-//@ props C10 C01
+//@ props C10 C01 C08
 //@ spec
         requires data_keeper.rlen() <= u32::MAX
         ensures
@@ -219,7 +219,7 @@ impl SubTraceLoreCtor {
 //@ end
 
 //@ lift crates/air-lib/trace-handler/src/state_automata/fold_fsm/lore_ctor.rs :: impl SubTraceLoreCtor :: fn after_start
-//@ props C10 C01
+//@ props C10 C01 C08
 //@ spec
         requires data_keeper.rlen() <= u32::MAX
         ensures final(self).st() == next_state(old(self).st()), final(self).sa() == data_keeper.rlen(),
@@ -228,7 +228,7 @@ impl SubTraceLoreCtor {
 //@ end
 
 //@ lift crates/air-lib/trace-handler/src/state_automata/fold_fsm/lore_ctor.rs :: impl SubTraceLoreCtor :: fn after_end
-//@ props C10 C01
+//@ props C10 C01 C08
 //@ spec
         requires data_keeper.rlen() <= u32::MAX
         ensures final(self).st() == next_state(old(self).st()), final(self).ea() == data_keeper.rlen(),
@@ -237,14 +237,14 @@ impl SubTraceLoreCtor {
 //@ end
 
 //@ lift crates/air-lib/trace-handler/src/state_automata/fold_fsm/lore_ctor.rs :: impl SubTraceLoreCtor :: fn finish
-//@ props C10 C01
+//@ props C10 C01 C08
 //@ spec
         requires data_keeper.rlen() <= u32::MAX
         ensures old(self).finished_as(final(self), data_keeper.rlen())
 //@ end
 
 //@ lift crates/air-lib/trace-handler/src/state_automata/fold_fsm/lore_ctor.rs :: impl SubTraceLoreCtor :: fn into_subtrace_lore
-//@ props C10 C01
+//@ props C10 C01 C08
 //@ ret r
 //@ spec
         // established by finish() under monotone positions; without it `end_pos - start_pos` panics
@@ -271,7 +271,7 @@ impl SubTraceLoreCtorQueue {
     pub open spec fn wf(&self) -> bool { self.pos() <= self.q().len() }
 
 //@ lift crates/air-lib/trace-handler/src/state_automata/fold_fsm/lore_ctor_queue.rs :: impl SubTraceLoreCtorQueue :: fn current
-//@ props C10 C01
+//@ props C10 C01 C08
 //@ ret r
 //@ spec
         // TOTAL since the F13 fix (`checked_sub` + `get_mut`): no call-order precondition any more. There is a current
@@ -285,7 +285,7 @@ impl SubTraceLoreCtorQueue {
 //@ end
 
 //@ lift crates/air-lib/trace-handler/src/state_automata/fold_fsm/lore_ctor_queue.rs :: impl SubTraceLoreCtorQueue :: fn add_element
-//@ props C10 C01
+//@ props C10 C01 C08
 //@ after "self.queue.push(new_element);"
         proof { assert(self.queue.len() == self.queue@.len()); }     // a Vec's length is a usize: pos + 1 <= len <= usize::MAX
 //@ spec
@@ -296,7 +296,7 @@ impl SubTraceLoreCtorQueue {
 //@ end
 
 //@ lift crates/air-lib/trace-handler/src/state_automata/fold_fsm/lore_ctor_queue.rs :: impl SubTraceLoreCtorQueue :: fn traverse_back
-//@ props C10 C01
+//@ props C10 C01 C08
 //@ spec
         // TOTAL since the F13 fix (`saturating_sub`): stepping back from the front stays at the front
         ensures final(self).pos() == (if old(self).pos() >= 1 { old(self).pos() - 1 } else { 0 }), final(self).q() == old(self).q(),
@@ -304,19 +304,19 @@ impl SubTraceLoreCtorQueue {
 //@ end
 
 //@ lift crates/air-lib/trace-handler/src/state_automata/fold_fsm/lore_ctor_queue.rs :: impl SubTraceLoreCtorQueue :: fn start_back_traverse
-//@ props C10 C01
+//@ props C10 C01 C08
 //@ spec
         ensures final(self).started(), final(self).pos() == old(self).pos(), final(self).q() == old(self).q(),
 //@ end
 
 //@ lift crates/air-lib/trace-handler/src/state_automata/fold_fsm/lore_ctor_queue.rs :: impl SubTraceLoreCtorQueue :: fn end_back_traverse
-//@ props C10 C01
+//@ props C10 C01 C08
 //@ spec
         ensures !final(self).started(), final(self).pos() == old(self).pos(), final(self).q() == old(self).q(),
 //@ end
 
 //@ lift crates/air-lib/trace-handler/src/state_automata/fold_fsm/lore_ctor_queue.rs :: impl SubTraceLoreCtorQueue :: fn back_traversal_started
-//@ props C10 C01
+//@ props C10 C01 C08
 //@ ret r
 //@ spec
         ensures r == self.started()
@@ -324,7 +324,7 @@ impl SubTraceLoreCtorQueue {
 
 // (the rewrite only names the ghost iterator of the `iter_mut()` loop so that the invariant can mention it)
 //@ lift crates/air-lib/trace-handler/src/state_automata/fold_fsm/lore_ctor_queue.rs :: impl SubTraceLoreCtorQueue :: fn finish
-//@ props C10 C01
+//@ props C10 C01 C08
 //@ rewrite 1 "for ctor in self.queue.iter_mut()" => "for ctor in it: self.queue.iter_mut()"
 //@ spec
         requires data_keeper.rlen() <= u32::MAX
